@@ -22,17 +22,17 @@ SCHED_FLAGS_asan := -O1 -g
 SCHED_FLAGS_tsan := -O1 -g
 SCHED_FLAGS_cov := -O1 -g
 
-COMMON := -std=c++17 -pthread -DCHAISCRIPT_VERIF -DCHAISCRIPT_NO_DYNLOAD -Isim/include -Isim/core -I$(REPO)/include -I$(REPO)/static_libs -Wall -Wno-unused-function
+COMMON := -std=c++17 -pthread -DCHAISCRIPT_VERIF -Isim/include -Isim/core -I$(REPO)/include -I$(REPO)/static_libs -Wall -Wno-unused-function
 
 STAMP := $(B)/repo.stamp
 
-all: $(foreach f,$(FLAVOURS),$(B)/$(f)/simrun)
+all: $(foreach f,$(FLAVOURS),$(B)/$(f)/simrun $(B)/$(f)/libc15mod.so)
 
 # the stamp changes (and forces a rebuild) whenever the hashed repo sources change
 .PHONY: FORCE
-$(STAMP): FORCE
+$(STAMP): FORCE Makefile
 	@mkdir -p $(B)
-	@h=$$( (find $(REPO)/include $(REPO)/static_libs -type f \( -name '*.hpp' -o -name '*.cpp' -o -name '*.h' \) -print0 | sort -z | xargs -0 sha256sum; ) | sha256sum | cut -d' ' -f1); \
+	@h=$$( (find $(REPO)/include $(REPO)/static_libs -type f \( -name '*.hpp' -o -name '*.cpp' -o -name '*.h' \) -print0 | sort -z | xargs -0 sha256sum; sha256sum Makefile; ) | sha256sum | cut -d' ' -f1); \
 	 if [ ! -f $@ ] || [ "$$(cat $@)" != "$$h" ]; then echo $$h > $@; fi
 
 define FLAVOUR_RULES
@@ -57,6 +57,10 @@ $(B)/$(1)/simworld.o: sim/core/simworld.cpp sim/core/simworld.hpp sim/core/commo
 $(B)/$(1)/%.o: sim/worlds/%.cpp sim/core/simworld.hpp sim/core/common.hpp sim/core/simsched.h sim/core/filelayer.h sim/include/chaiscript_verif_sync.hpp $(STAMP)
 	@mkdir -p $(B)/$(1)
 	$$(CXX_$(1)) $(COMMON) $$(FLAGS_$(1)) -c $$< -o $$@
+# loadable extension modules (dlopen'ed by world C15 through ChaiScript_Basic::load_module)
+$(B)/$(1)/libc15mod.so: sim/modules/c15mod.cpp sim/include/chaiscript_verif_sync.hpp $(STAMP)
+	@mkdir -p $(B)/$(1)
+	$$(CXX_$(1)) $(COMMON) $$(FLAGS_$(1)) -shared -fPIC $$< -o $$@
 $(B)/$(1)/simrun: $(B)/$(1)/simrun.o $(B)/$(1)/simworld.o $(B)/$(1)/sched.o $(B)/$(1)/filelayer.o $(B)/$(1)/stdlib.o $(B)/$(1)/parser.o $(foreach w,$(WORLDS),$(B)/$(1)/$(w).o)
 	$$(CXX_$(1)) $$(FLAGS_$(1)) -pthread -rdynamic $$^ -o $$@ -ldl
 endef
